@@ -1736,10 +1736,6 @@ class LeCreditBasedChannel(utils.EventEmitter):
             self.disconnection_result = None
 
     def on_pdu(self, pdu: bytes) -> None:
-        if self.sink is None:
-            logger.warning('received pdu without a sink')
-            return
-
         if self.state != self.State.CONNECTED:
             logger.warning('received PDU while not connected, dropping')
 
@@ -1795,7 +1791,10 @@ class LeCreditBasedChannel(utils.EventEmitter):
 
         # Send the SDU to the sink
         logger.debug(f'SDU complete: 2+{len(self.in_sdu) - 2} bytes')
-        self.sink(self.in_sdu[2:])  # pylint: disable=not-callable
+        if self.sink is None:
+            logger.warning('received SDU without a sink, dropping')
+        else:
+            self.sink(self.in_sdu[2:])  # pylint: disable=not-callable
 
         # Prepare for a new SDU
         self.in_sdu = None
